@@ -139,7 +139,8 @@ package xmpp
 //
 //@ func (*xmpp.Route).Match(r, p, match) (ok)
 //@   requires wfRoute(r) && match != nil
-//@   ensures [C06.route.all] ok == routeAccepts(r, p)
+//@   ensures [C06.route.all]  ok ==> routeAccepts(r, p)
+//@   ensures [C06.route.some] !ok ==> exists(k, 0, len(r.matchers), !accepts(r.matchers[k], p))
 //@   ensures [C06.route.match] ok ==> match.Route == r && match.Handler == r.handler
 //@   ensures [C06.route.nomatch] !ok ==> match.Route == old(match.Route) && match.Handler == old(match.Handler)
 //@   assigns match.Route, match.Handler
@@ -414,7 +415,11 @@ package xmpp
 //@   emits PacketRead, StanzaRead, AckReqRead, StreamErrRead, AnswerSent, Send, SendAttrs, Write, Spawn_route, Spawn, ErrorHandler, EventHandler, Close, HandlePacket, SendRaw, ChanSend
 //@   at call Send assert [C09.h] typeof($packet) == stanza.SMAnswer && $packet.(stanza.SMAnswer).H == c.Session.SMState.Inbound
 //@   loop 1:
-//@     invariant recvOK(c) && c.Session == old(c.Session) && c.Handler == old(c.Handler) && c.router == old(c.router) && c.router.IQResultRoutes == old(c.router.IQResultRoutes) && cQueue(c) == old(cQueue(c))
+//@     invariant c != nil && c.config != nil && c.config == old(c.config) && c.Session != nil && c.Session == old(c.Session) && c.transport != nil && c.router != nil && c.router == old(c.router) && c.ErrorHandler != nil && c.Handler == old(c.Handler)
+//@     invariant c.router.IQResultRoutes == old(c.router.IQResultRoutes) && cQueue(c) == old(cQueue(c))
+//@     invariant wfQueue(cQueue(c))
+//@     invariant wfRouter(c.router)
+//@     invariant pendingWf(c.router)
 //@     invariant cQueue(c) != nil ==> (base(cQueue(c).Uslice) == old(base(cQueue(c).Uslice)) || fresh(cQueue(c).Uslice))
 //@     invariant [C05.once]  newSpawns() == newReads() && newReads() >= 0
 //@     invariant [C05.same]  forall(j, 0, newSpawns(), arg(Spawn_route, old(count(Spawn_route)) + j, 2) == arg(PacketRead, old(count(PacketRead)) + j) && arg(Spawn_route, old(count(Spawn_route)) + j, 1) == iface(c))
